@@ -14,6 +14,11 @@
 (*                       off prefix made of indentation / container prefix *)
 (*                       characters only (at most nq '>' ; list-marker     *)
 (*                       characters only inside a list item)               *)
+(*  verbatim_line_end_dropped  the content does not end with a line feed    *)
+(*                       although its last source line does                *)
+(*  verbatim_not_column_exact  outside containers: content line i is not   *)
+(*                       source line i with exactly W columns of leading   *)
+(*                       blanks removed (4 / the fence's indent / 0)       *)
 (*  fence_markup / fence_info   line = prefix markup info, markup maximal  *)
 (*  hr_markup            same character and COUNT as the markers written   *)
 (*  heading_markup       '#'^level at the start of the line, maximal;      *)
@@ -59,13 +64,33 @@ FromLine(c, s, nq, nl) ==
            /\ (pad > 0 => 9 \in {p[i] : i \in DOMAIN p})
            /\ c = Spaces(pad) \o rest
 
+(* column-exact removal of W columns of leading indentation (columns counted from the physical line start,
+   a partially consumed tab replaced by spaces): what the statement prescribes for a block that is not inside
+   a container, where the width to remove is known from the source alone *)
+RECURSIVE StripFrom(_, _, _, _)
+StripFrom(s, k, col, W) ==
+    IF k <= Len(s) /\ col < W /\ s[k] \in Blank
+    THEN StripFrom(s, k + 1, IF s[k] = 9 THEN col + 4 - (col % 4) ELSE col + 1, W)
+    ELSE Spaces(IF col > W THEN col - W ELSE 0) \o SubSeq(s, k, Len(s))
+Strip(s, W) == StripFrom(s, 1, 0, W)
+RECURSIVE LeadColsFrom(_, _, _)
+LeadColsFrom(s, k, col) ==
+    IF k <= Len(s) /\ s[k] \in Blank THEN LeadColsFrom(s, k + 1, IF s[k] = 9 THEN col + 4 - (col % 4) ELSE col + 1)
+    ELSE col
+LeadCols(s) == LeadColsFrom(s, 1, 0)
+
 VerbatimVerdict(e) ==
     LET b == e.map[1] en == e.map[2] n == Len(e.cl)
         first == IF e.ty = "fence" THEN b + 1 ELSE b
+        W == CASE e.ty = "code_block" -> 4 [] e.ty = "fence" -> LeadCols(Line(b)) [] OTHER -> 0
+        \* the source line of the last content line is terminated by a line feed in the (normalised) source
+        terminated == n > 0 /\ (first + n - 1 < Len(Lines) - 1 \/ Tr.endnl = 1)
     IN
     IF e.ty = "fence" /\ ~(n = en - b - 1 \/ n = en - b - 2 \/ (n = 0 /\ en - b = 1)) THEN "verbatim_line_count"
     ELSE IF e.ty # "fence" /\ n # en - b THEN "verbatim_line_count"
     ELSE IF \E i \in 1..n : ~FromLine(e.cl[i], Line(first + i - 1), e.nq, e.nl) THEN "verbatim_altered"
+    ELSE IF terminated /\ e.fin # 1 THEN "verbatim_line_end_dropped"
+    ELSE IF e.nq = 0 /\ e.nl = 0 /\ \E i \in 1..n : e.cl[i] # Strip(Line(first + i - 1), W) THEN "verbatim_not_column_exact"
     ELSE "ok"
 
 (* line = prefix ++ run ++ rest, run = c^k maximal *)
